@@ -862,7 +862,7 @@ async fn honest(st: &Stack, names: &Names<'_>, fmt: u8, hashes: &[String]) -> Ve
     }
 }
 
-const N_ALT: u64 = 22;
+const N_ALT: u64 = 24;
 /// one alteration of an honest response; returns (kind, altered response, description)
 async fn alter(
     rng: &mut Rng,
@@ -1196,6 +1196,21 @@ async fn alter(
             r.parts[pi].0.reverse();
             "items-duplicated-reordered"
         }
+        22 | 23 if fmt == 0 => {
+            // a part repeated: the very same proof a second time (byte-identical), now paired with items no
+            // proof vouches for (a verifier that remembers "this proof was already checked" must still check
+            // every listed item against it)
+            let proof = r.parts[pi].1.clone();
+            let mut items = if rng.coin() { r.parts[pi].0.clone() } else { vec![] };
+            let fab = mk_fab(rng, None);
+            if rng.coin() { items.push(fab) } else { items.insert(0, fab) }
+            if rng.coin() {
+                r.parts.push((items, proof));
+            } else {
+                r.parts.insert(pi + 1, (items, proof));
+            }
+            "part-repeated-with-forged-items"
+        }
         _ => return None,
     };
     let note = json!({ "alteration": kind });
@@ -1272,8 +1287,11 @@ async fn explore_chain(sink: &mut Sink, rng: &mut Rng, work: &PathBuf, chain_no:
             if let Some(id) = id {
                 push_case(sink, id, &ctx, "honest", &base, !base.parts.is_empty(), json!({"query": hashes}));
             }
-            for _ in 0..nalt {
-                let which = rng.below(N_ALT);
+            // the first two queries of every format get EVERY alteration kind once; the others a random sample
+            let n_here = if q < 2 { N_ALT } else { nalt };
+            for ai in 0..n_here {
+                let drawn = rng.below(N_ALT);
+                let which = if q < 2 { ai } else { drawn };
                 let mut arng = rng.fork();
                 let alt = alter(&mut arng, which, &base, &a, &b, &names, fmt).await;
                 let id = sink.wants();
